@@ -127,6 +127,8 @@ package memmetrics
 //@   mutators Ratio IncA IncB Reset CountA CountB ProcessedCount
 //@   immutable a b
 
+//@ pred ratioOK(r *RatioCounter) = r != nil && r.a != nil && r.b != nil && r.a != r.b && backing(r.a.values) != backing(r.b.values) && cfgOK(r.a) && RC(r.a) && cfgOK(r.b) && RC(r.b) && lastclock >= (len(r.a.values) + 1) * r.a.resolution && lastclock >= (len(r.b.values) + 1) * r.b.resolution
+
 //@ func (*RatioCounter).Ratio
 //@   props C17
 //@   assume clock_stable
